@@ -1732,6 +1732,7 @@ M('C07', 'attrs-enforced-only-when-true', DE, "            if getattr(key, attr)
 M('C07', 'attrs-truthiness-compared', DE, "            if getattr(key, attr) != expected:", "            if expected and not getattr(key, attr):", 'C07.5')
 M('C07', 'call-check-only-with-identity', DE, "                self.check_attributes(key)\n", "                if kwargs.get('user') is not None:\n                    self.check_attributes(key)\n", 'C07.5')
 M('C07', 'call-check-only-when-subkey-selected', DE, "                self.check_attributes(key)\n", "                if _key is not key:\n                    self.check_attributes(key)\n", 'C07.5')
+M('C07', 'call-unguarded-fast-path', DE, "    def __call__(self, action):\n", "    def __call__(self, action):\n        if not self.conditions:\n            return action\n\n", 'C07.5')
 # =============================================================================================== C16
 M('C16', 'sign-drops-unlocked', PGP, "    @KeyAction(KeyFlags.Sign, is_unlocked=True, is_public=False)", "    @KeyAction(KeyFlags.Sign, is_public=False)", 'C16.1')
 M('C16', 'encrypt-private', PGP, "    @KeyAction(KeyFlags.EncryptCommunications, KeyFlags.EncryptStorage, is_public=True)", "    @KeyAction(KeyFlags.EncryptCommunications, KeyFlags.EncryptStorage, is_public=False)", 'C16.1')
@@ -1931,6 +1932,7 @@ M('C16', 'call-refusals-only-for-flagged-actions', DE, "            if len(key._
 M('C16', 'call-no-key-check-after-usage', DE, "            if key._key is None:\n                raise PGPError(\"No key!\")\n", "", 'C16.2', more=[(DE, "                self.check_attributes(key)\n\n", "                self.check_attributes(key)\n                if _key._key is None:\n                    raise PGPError(\"No key!\")\n\n")])
 M('C16', 'usage-scan-stops-at-first-subkey', DE, "                if self.flags & set(_key._get_key_flags(user)):\n                    break\n", "                if self.flags & set(_key._get_key_flags(user)) or _key is not key:\n                    break\n", 'C16.3')
 M('C16', 'usage-refusal-only-for-primary', DE, "                if key._require_usage_flags:\n                    raise PGPError(warning)", "                if key._require_usage_flags and key.is_primary:\n                    raise PGPError(warning)", 'C16.3')
+M('C16', 'call-unguarded-fast-path', DE, "    def __call__(self, action):\n", "    def __call__(self, action):\n        if not self.flags and not self.conditions:\n            return action\n\n", 'C16.2')
 M('C16', 'unlocked-public-short-circuit-lost', PGP, "        if not self.is_protected:\n            return True\n\n        return self._key.unlocked", "        return True", 'C16.2')
 T('C16', 'twin-delegate-loop-skip', PGP, _C16_DEL, "            for skid in self.subkeys:\n                if skid not in message.encrypters:\n                    continue\n                return self.subkeys[skid].decrypt(message)\n")
 
